@@ -90,6 +90,11 @@ def _expand(payload, sub):
     return sc
 
 
+def _retest_chain(payload, sub):
+    PL.describe({'tables': payload['tables'], 'steps': payload['steps'], 'source_kinds': payload.get('source_kinds')}, {'calls': {}})
+    return True
+
+
 def gen_variant(rng, n):
     # split points
     segs = []
@@ -218,7 +223,7 @@ class C01(Prop):
     ASSUMPTIONS = ['a generated pipeline whose serial reference evaluation raises is outside the quantifier (ill-typed) and is discarded, unless the lazy evaluation does not raise',
                    'the descriptor and rows are compared exactly; results() is compared with raw APIs through Table Schema casts of the raw rows']
     REAL_VS_STUB = {'real': ['everything under dataflows/ that the pipeline touches'], 'stub': ['none (the schedule is chosen by how the harness groups and drains the real generators)']}
-    PROBES = ['user-bound-method', 'user-partial', 'user-callable-obj', 'user-lambda', 'user-function', 'crossed-inference-sample', 'nested-depth>=2', 'conditional-wrapped',
+    PROBES = ['refused-user-callable-retested', 'user-bound-method', 'user-partial', 'user-callable-obj', 'user-lambda', 'user-function', 'crossed-inference-sample', 'nested-depth>=2', 'conditional-wrapped',
               'barrier-after-sources', 'api-process', 'api-datastream', 'both-raise-discard', 'uninterpretable-link', 'one-shot-source', 'nested-in-place-edit']
     TIERS = {'quick': dict(runs=500, wall=100, run_wall=300),
              'thorough': dict(runs=15000, wall=1700, run_wall=600)}
@@ -237,7 +242,19 @@ class C01(Prop):
         sc = self.normalize(sc)
         n = len(sc['steps'])
         for k, v in (sc.get('gen_stats') or {}).items():
-            ctx.count('gen:' + k, v)
+            if isinstance(v, int):
+                ctx.count('gen:' + k, v)
+        cand = (sc.get('gen_stats') or {}).get('ill-user-candidate')
+        if cand:
+            # "every link taking effect": a well-formed user callable was refused while the chain was being generated; the
+            # refused chain is part of the scenario and is run again here (so that a replay judges the code, not the record)
+            ctx.probe('refused-user-callable-retested')
+            r = ctx.subrun(_retest_chain, {'tables': sc['tables'], 'source_kinds': sc.get('source_kinds'), 'steps': cand['prefix'] + [cand['spec']]})
+            if r['status'] == 'exc':
+                c = r['exc'].get('cause') or r['exc']
+                ctx.violation('valid-link-rejected', '%s:%s' % (cand['spec'].get('kind'), c['type']),
+                              'a well-formed user %s-callable of kind %s is rejected when added to a valid chain of %d steps: %s: %s' % (
+                                  cand['spec'].get('param'), cand['spec'].get('kind'), len(cand['prefix']), c['type'], c['str'][:200]), kind=cand['spec'].get('kind'))
         outs = []
         for vi, var in enumerate(sc['variants']):
             r = ctx.subrun(_run_variant, {'sc': sc, 'variant': var})
